@@ -1,7 +1,7 @@
 (* Entry points evaluated by the generated Run/Cases_*.v files. *)
 From Coq Require Import ZArith QArith Qcanon List Bool.
 From Coq Require PrimFloat.
-From RV Require Import Base.Num Base.Vec Expr Rows Ocp Mech.Grid Mech.Intg Mech.Sampling Mech.Shooting Mech.Colloc Mech.Sample Mech.Refine Inst.
+From RV Require Import Base.Num Base.Vec Expr Rows Ocp Mech.Grid Mech.Intg Mech.Sampling Mech.Shooting Mech.Colloc Mech.Sample Mech.Refine Mech.Initial Inst.
 Import ListNotations.
 
 Section Conv.
@@ -89,3 +89,8 @@ Definition run_fine_float (oc : ocp) (specs : list (nat * list expr)) (sspecs : 
 Definition qc_out (q : Qc) : Z * positive := (Qnum (this q), Qden (this q)).
 
 Definition q (n : Z) (d : positive) : Q := Qmake n d.
+
+(* starting point from the set_initial calls *)
+Definition run_initial_float (oc : ocp) (nv nvc nvp : nat) (calls : list gcall) (pvals : list Q) :=
+  let s := @start_values _ FloatOps oc nv nvc nvp calls pvals in
+  (s_X s, s_U s, s_V s, s_VC s, s_VP s, (s_T s, s_t0 s), (s_Xi s, s_Xc s, s_Zc s)).
